@@ -349,6 +349,12 @@ pub fn check_main(args: CheckArgs) -> i32 {
                 if let Ok(txt) = std::fs::read_to_string(&file) {
                     if let Ok(mut r) = serde_json::from_str::<Replay>(&txt) {
                         r.violation = Violation::new(&format!("I1-abort:{}", reason), format!("worker process died ({}) during run {} step {}", reason, run, step));
+                        // re-execute in a fresh process to learn the specific
+                        // signature (allocation site, stack overflow, hang)
+                        let got = minimize::classify_full(&r, &tmpdir, "crash");
+                        if let Some(v) = got.iter().find(|v| v.class.starts_with("I1-abort")) {
+                            r.violation = v.clone();
+                        }
                         all_viol.push(r);
                     }
                 }
